@@ -267,6 +267,90 @@ func (in *Interp) initStubs() {
 		return nil, stDone
 	}
 
+	// ---- sync.Map (keys must compare to a constant: concrete strings / integers / pointers) ----
+	smFind := func(in *Interp, c *Cell, k Value) int {
+		for i, e := range in.syncMaps[c] {
+			t := in.valuesEqual(e.k, k)
+			if !t.IsConst() {
+				panic(in.unsupported("sync.Map with a symbolic key comparison"))
+			}
+			if t.op == OpTrue {
+				return i
+			}
+		}
+		return -1
+	}
+	s["(*sync.Map).Load"] = func(in *Interp, th *Thread, fn *ssa.Function, a []Value) (Value, stubStatus) {
+		if !in.syncPoint(th, "sync.Map.Load", nil) {
+			return nil, stYield
+		}
+		c := cellOf(a[0])
+		if i := smFind(in, c, a[1]); i >= 0 {
+			return TupleV{in.syncMaps[c][i].v, in.tb.T}, stDone
+		}
+		return TupleV{IfaceV{}, in.tb.F}, stDone
+	}
+	s["(*sync.Map).Store"] = func(in *Interp, th *Thread, fn *ssa.Function, a []Value) (Value, stubStatus) {
+		if !in.syncPoint(th, "sync.Map.Store", nil) {
+			return nil, stYield
+		}
+		c := cellOf(a[0])
+		if i := smFind(in, c, a[1]); i >= 0 {
+			in.syncMaps[c][i].v = a[2]
+		} else {
+			in.syncMaps[c] = append(in.syncMaps[c], syncMapEntry{a[1], a[2]})
+		}
+		return nil, stDone
+	}
+	s["(*sync.Map).LoadOrStore"] = func(in *Interp, th *Thread, fn *ssa.Function, a []Value) (Value, stubStatus) {
+		if !in.syncPoint(th, "sync.Map.LoadOrStore", nil) {
+			return nil, stYield
+		}
+		c := cellOf(a[0])
+		if i := smFind(in, c, a[1]); i >= 0 {
+			return TupleV{in.syncMaps[c][i].v, in.tb.T}, stDone
+		}
+		in.syncMaps[c] = append(in.syncMaps[c], syncMapEntry{a[1], a[2]})
+		return TupleV{a[2], in.tb.F}, stDone
+	}
+	s["(*sync.Map).LoadAndDelete"] = func(in *Interp, th *Thread, fn *ssa.Function, a []Value) (Value, stubStatus) {
+		if !in.syncPoint(th, "sync.Map.LoadAndDelete", nil) {
+			return nil, stYield
+		}
+		c := cellOf(a[0])
+		if i := smFind(in, c, a[1]); i >= 0 {
+			v := in.syncMaps[c][i].v
+			in.syncMaps[c] = append(append([]syncMapEntry(nil), in.syncMaps[c][:i]...), in.syncMaps[c][i+1:]...)
+			return TupleV{v, in.tb.T}, stDone
+		}
+		return TupleV{IfaceV{}, in.tb.F}, stDone
+	}
+	s["(*sync.Map).Delete"] = func(in *Interp, th *Thread, fn *ssa.Function, a []Value) (Value, stubStatus) {
+		if !in.syncPoint(th, "sync.Map.Delete", nil) {
+			return nil, stYield
+		}
+		c := cellOf(a[0])
+		if i := smFind(in, c, a[1]); i >= 0 {
+			in.syncMaps[c] = append(append([]syncMapEntry(nil), in.syncMaps[c][:i]...), in.syncMaps[c][i+1:]...)
+		}
+		return nil, stDone
+	}
+	s["(*sync.Map).Range"] = func(in *Interp, th *Thread, fn *ssa.Function, a []Value) (Value, stubStatus) {
+		if !in.syncPoint(th, "sync.Map.Range", nil) {
+			return nil, stYield
+		}
+		c := cellOf(a[0])
+		// a snapshot in insertion order (Range promises no particular order; the callbacks in go-coap only collect)
+		snap := append([]syncMapEntry(nil), in.syncMaps[c]...)
+		for _, e := range snap {
+			r := in.callSync(th, a[1].(FuncV), []Value{e.k, e.v})
+			if t, ok := r.(*Term); ok && t.op == OpFalse {
+				break
+			}
+		}
+		return nil, stDone
+	}
+
 	// ---- sync/atomic.Value ----
 	s["(*sync/atomic.Value).Load"] = func(in *Interp, th *Thread, fn *ssa.Function, a []Value) (Value, stubStatus) {
 		if !in.syncPoint(th, "atomic.Value.Load", nil) {
